@@ -17,10 +17,10 @@ UDF == {<<"d", "d/b">>}
 P2 == {"a", "b"}
 \* universe S (C32): names that share string prefixes but not components, and a selection three
 \* components deep next to an excluded sibling that sorts before it (a/b/0 vs a/b/c/w)
-PS == {"a/x", "ab/y", "a/b/0", "a/b/c/w", "f"}
-SS == {"a", "ab", "a/b", "a/b/c", "a+ab"}
+PS == {"a/x", "ab/y", "a/b/0", "a/b/c/w", "c/v", "f"}
+SS == {"a", "ab", "a/b", "a/b/c", "a+ab", "c"}
 ConeS == [s \in SS |-> CASE s = "a" -> {"a/x", "a/b/0", "a/b/c/w"} [] s = "ab" -> {"ab/y"} [] s = "a/b" -> {"a/b/0", "a/b/c/w"}
-                          [] s = "a/b/c" -> {"a/b/c/w"} [] s = "a+ab" -> {"a/x", "a/b/0", "a/b/c/w", "ab/y"}]
+                          [] s = "a/b/c" -> {"a/b/c/w"} [] s = "a+ab" -> {"a/x", "a/b/0", "a/b/c/w", "ab/y"} [] s = "c" -> {"c/v"}]
 NoCone == [s \in {} |-> {}]
 OpsMain == {"reset-hard", "checkout-force", "checkout-force-create", "checkout", "checkout-twin", "checkout-create", "reset-merge", "reset-keep", "add", "add-all", "remove", "move", "clean", "commit", "status"}
 \* C29 adds the calls that must be refused outright, resets to HEAD itself and pull
@@ -29,5 +29,6 @@ OpsRefusal == {"pull", "merge-ff", "merge-nonff", "merge-unsupported", "reset-me
 OpsMainR == OpsMain \cup OpsRefusal
 OpsNoMoveR == OpsMainR \ {"move"}
 OpsNoMove == OpsMain \ {"move"}
-OpsSparse == {"sparse"}
+OpsSparse == {"sparse", "sparse2"}
+OpsSparseDirty == {"sparse", "sparse-keep"}
 =============================================================================
